@@ -446,3 +446,7 @@ func VerifInitializingDecode(steps int8, data []byte) (int, bool, error) {
 // Write / Writev call the connection's own write path (straight to the socket, backlog in the outbound buffer).
 func (v *VerifConn) Write(p []byte) (int, error)     { return v.c.write(p) }
 func (v *VerifConn) Writev(bs [][]byte) (int, error) { return v.c.writev(bs) }
+
+// NewMonitoredPool creates a pool exactly as the engine does (engine.newPool), health monitor goroutine included;
+// Pool.Close stops it.
+func (e *VerifEnv) NewMonitoredPool(addr string, isSlave bool) *Pool { return e.eng.newPool(addr, isSlave) }
